@@ -66,6 +66,7 @@ ATOMS = [
     ("value(@.*)", False), ("nosuch(@.a)", False), ("length(@.a, @.b) == 1", False), ("length(@.*) == 1", False),
     ("count(1) == 1", False), ("length(value(@.*)) == 1", True), ("search(@.a, length(@.b))", True), ("match(@.*, 'a')", False),
     ("count(@.a) == length('ab')", True), ("length(match(@.a, 'a')) == 1", False), ("search(@.a)", False), ("length() == 1", False),
+    ("@.* != 1", False), ("@.* < 1", False), ("1 <= @.*", False), ("@.* >= 1", False), ("match(@.a, 'a') != true", False), ("@.a != 1", True), ("@.a <= @.b", True),
     ("@['a','b'] == 1", False), ("1 == $[0,1]", False), ("@['a'][0] == 1", True), ("@['a','b']", True),
     ("@.a == length(@.b)", True), ("@.a == match(@.b, 'a')", False), ("value(@.a == 1) == 1", False), ("count(@.a == 1) == 1", False),
 ]
@@ -74,6 +75,7 @@ TEMPLATES = [
     "{1} && ({0} || {2})", "({1} || {2}) && !{0}", "{1} || {2} && {0}", "!(!{0})", "{1} && !({2} || {0})",
 ]
 GOOD = [i for i, a in enumerate(ATOMS) if a[1]][: P.get("fillers", 3)]
+FLO, FHI = P.get("flo", 0), P.get("fhi", 6)
 TPL_LO, TPL_HI = P.get("tpl_lo", 0), P.get("tpl_hi", len(TEMPLATES) - 1)
 # argument kinds for function parameter positions
 ARGS = [("1", "lit"), ("'a'", "lit"), ("@.a", "singular"), ("$.a[0]", "singular"), ("@.*", "nonsingular"), ("@..a", "nonsingular"),
@@ -103,7 +105,7 @@ def typing_positions(t: int, i: int, j: int, k: int) -> bool:
     """
     tpl = pick(TEMPLATES, t)
     a = pick(ATOMS, i)
-    if any(op in a[0] for op in (" == ", " > ")) and "!{0}" in tpl:
+    if any(op in a[0] for op in (" == ", " != ", " < ", " <= ", " > ", " >= ")) and "!{0}" in tpl:
         tpl = tpl.replace("!{0}", "!({0})")  # `!x == y` would parse as `(!x) == y`: negate the comparison as a whole
     b = ATOMS[pick(GOOD, j)]
     c = ATOMS[pick(GOOD, k)]
@@ -149,3 +151,30 @@ def compiles_to(text: str, want: tuple) -> bool:
         return tuple(tup(i) for i in x) if isinstance(x, (list, tuple)) else x
 
     return oracle.shape(JSONPathEnvironment().compile(text)) == tup(want)
+
+
+FIRSTS = ["1", "@.a", "length(@.a)", "@.*", "match(@.a, 'a')"]
+
+
+def typing_history(f: int, x0: int, x: int, y: int) -> bool:
+    """Two compilations on ONE fresh environment: what the first call was given does not change the verdict on the second.
+
+    pre: FLO <= f <= FHI and 0 <= x0 < len(FIRSTS) and 0 <= x < len(ARGS) and 0 <= y < len(ARGS)
+    post: _
+    """
+    env = JSONPathEnvironment()
+    tpl, kinds = pick(FUNCS, f)
+    first = "$[?" + tpl.format(pick(FIRSTS, x0), "'a'") + "]"
+    try:
+        env.compile(first)
+    except jsonpath.JSONPathError:
+        pass
+    ax, ay = pick(ARGS, x), pick(ARGS, y)
+    text = "$[?" + tpl.format(ax[0], ay[0]) + "]"
+    exp = ax[1] in kinds[0] and (len(kinds) < 2 or ay[1] in kinds[1])
+    try:
+        env.compile(text)
+        got = True
+    except jsonpath.JSONPathError:
+        got = False
+    return ok(why(got == exp, "after compiling", first, "accepted" if got else "rejected", text, "well-typed" if exp else "ill-typed"))
